@@ -225,6 +225,7 @@ def oracle_c01(ctx):
                 bad = c01_case(meta['key'], vals, 1, False, b'')
                 if bad:
                     res.violation('%s round trip' % meta['name'], {'fn': 'c01_case', 'args': pyrepr((meta['key'], vals, 1, False, b''))}, bad[0], bad[1])
+    env_snapshots(res, 'rt')
     reps = 10 if ctx.thorough else 2
     for meta in metas:
         key = meta['key']
@@ -2414,7 +2415,55 @@ sys.path.insert(0, sys.argv[1])
 which = sys.argv[2]
 from pamqp import commands, constants, exceptions
 out = {}
-if which == 'c17':
+if which == 'rt':
+    # a fixed corpus of frames, encoded and decoded
+    import datetime, decimal
+    from pamqp import frame, header, body, heartbeat, encode
+    C = commands
+    ts = datetime.datetime(2024, 1, 2, 3, 4, 5, tzinfo=datetime.timezone.utc)
+    tbl = {'i8': 5, 'i16': 300, 'u16': 40000, 'i32': 70000, 'u32': 3000000000, 'i64': 2 ** 40, 'neg': -129, 'f': 1.5, 'd': decimal.Decimal('12345.678'),
+           's': 'caf\u00e9', 'b': True, 'n': None, 't': ts, 'x': bytearray(b'\x00\xce'), 'l': [1, 'a', {'k': [None]}], 'k' * 128: 1, 'x-death': [{'count': 2}]}
+    corpus = []
+    for k, c in C.INDEX_MAPPING.items():
+        try:
+            corpus.append((c.name, c()))
+        except Exception as e:
+            corpus.append((c.name, None))
+    corpus += [('start', C.Connection.Start(0, 9, dict(tbl, product='RabbitMQ', version='3.5.7'), 'PLAIN', 'en_US')),
+               ('declare', C.Queue.Declare(0, 'amq.gen-x', False, True, False, True, False, tbl)),
+               ('publish', C.Basic.Publish(0, 'amq.topic', 'a.b', True, False)),
+               ('consume', C.Basic.Consume(0, 'amq.rabbitmq.reply-to', 'ctag', False, False, False, False, {'x-priority': 10})),
+               ('close', C.Channel.Close(404, "NOT_FOUND - no queue 'q'", 50, 10)),
+               ('header', header.ContentHeader(0, 2 ** 53 + 1, C.Basic.Properties(content_type='application/json', headers=tbl, delivery_mode=2, priority=9,
+                                                                                   timestamp=ts, expiration='60000', message_id='m', user_id='guest', app_id='a'))),
+               ('header0', header.ContentHeader()), ('body', body.ContentBody(b'AMQP\x00\xce' * 40)), ('body0', body.ContentBody(b'')),
+               ('heartbeat', heartbeat.Heartbeat()), ('proto', header.ProtocolHeader(0, 9, 1))]
+    rows = []
+    for legacy in (False, True):
+        encode.support_deprecated_rabbitmq(legacy)
+        for name, f in corpus:
+            if f is None:
+                rows.append([name, legacy, 'ctor failed', None])
+                continue
+            try:
+                b = frame.marshal(f, 1)
+            except Exception as e:
+                rows.append([name, legacy, 'err ' + type(e).__name__, None])
+                continue
+            try:
+                n, ch, g = frame.unmarshal(b + b'\x01')
+                if hasattr(g, 'properties'):
+                    d = [n, ch, type(g).__name__, g.body_size, sorted((k_, type(v_).__name__, repr(v_)) for k_, v_ in dict(g.properties).items())]
+                elif hasattr(g, '__slots__') and hasattr(type(g), 'index'):
+                    d = [n, ch, g.name, [(k_, type(v_).__name__, repr(v_)) for k_, v_ in g]]
+                else:
+                    d = [n, ch, type(g).__name__, repr(getattr(g, 'value', None) or getattr(g, 'major_version', None))]
+            except Exception as e:
+                d = 'err ' + type(e).__name__
+            rows.append([name, legacy, b.hex(), d])
+    encode.support_deprecated_rabbitmq(False)
+    out['frames'] = rows
+elif which == 'c17':
     out['mapping'] = [[k, v.__name__, getattr(v, 'name', None), getattr(v, 'value', None), issubclass(v, exceptions.AMQPSoftError),
                        issubclass(v, exceptions.AMQPHardError), issubclass(v, exceptions.PAMQPException)] for k, v in exceptions.CLASS_MAPPING.items()]
     out['classes'] = sorted([n, getattr(c, 'name', None), getattr(c, 'value', None), [b.__name__ for b in c.__mro__]]
@@ -3064,6 +3113,7 @@ def oracle_c16(ctx):
         encode.DEPRECATED_RABBITMQ_SUPPORT = old
     c16_fresh_processes(ctx, res, g.r.randrange(1 << 30), 1200 if ctx.thorough else 300)
     c16_first_use(ctx, res)
+    env_snapshots(res, 'rt')       # the same corpus of frames, encoded and decoded under other interpreter flags / environments
     # (after the history: the probes below encode the recurring values over and over, which would use up any
     # once-per-process behaviour the history comparison is there to see)
     c16_traces(ctx, res)
